@@ -559,6 +559,42 @@ func (fc *FuncCtx) callFormula(x *ssa.Call) *bddNode {
 			return n
 		}
 	}
+	// errors.Is(err, Sentinel) with a package-level sentinel: the same atom as err == Sentinel (the repo's sentinels are
+	// plain values; a wrapped sentinel would also satisfy errors.Is, which the rules that care check at the producer)
+	if sc != nil && sc.String() == "errors.Is" && len(c.Args) == 2 {
+		if ld, ok := c.Args[1].(*ssa.UnOp); ok {
+			if _, isG := ld.X.(*ssa.Global); isG {
+				return fc.eqFormula(x, c.Args[0], c.Args[1])
+			}
+		}
+	}
+	// slices.Contains(literal, x): the disjunction of x == element over the literal's elements
+	if sc != nil && strings.HasPrefix(sc.String(), "slices.Contains") && len(c.Args) == 2 {
+		if sl, ok := c.Args[0].(*ssa.Slice); ok {
+			if al, ok := sl.X.(*ssa.Alloc); ok && sl.Low == nil && sl.High == nil {
+				var elems []ssa.Value
+				okAll := true
+				for _, ref := range *al.Referrers() {
+					ia, ok := ref.(*ssa.IndexAddr)
+					if !ok {
+						continue
+					}
+					for _, r2 := range *ia.Referrers() {
+						if st, ok := r2.(*ssa.Store); ok && st.Addr == ssa.Value(ia) {
+							elems = append(elems, st.Val)
+						}
+					}
+				}
+				if len(elems) > 0 && okAll {
+					acc := B.False
+					for _, e := range elems {
+						acc = B.Or(acc, fc.eqFormula(x, c.Args[1], e))
+					}
+					return acc
+				}
+			}
+		}
+	}
 	// module predicate functions within the inlining bound: inline as formula of the returned bool
 	if sc != nil && fc.A.Inline != nil && fc.A.Inline(sc) && fc.depth < fc.A.MaxDepth && len(sc.Blocks) > 0 {
 		sub := fc.inlineCtx(sc, c.Args, x)
